@@ -433,7 +433,7 @@ def replay_ops_behaviour(rep: Reporter, beh: dict, root: Path, dirs, names, sour
 # ------------------------------------------------------------------------------------------------
 # C30: random executions of the real code (code -> spec)
 # ------------------------------------------------------------------------------------------------
-def enabled_ops(w: World, dirs, names, bytes_, mtimes, classes, max_objs) -> list[tuple[float, dict]]:
+def enabled_ops(w: World, dirs, names, bytes_, mtimes, classes, max_objs, last_obs=()) -> list[tuple[float, dict]]:
     """Weighted candidate operations satisfying Pre of FileValues.tla in the world's current state."""
     out: list[tuple[float, dict]] = []
     paths = [[d, n] for d in dirs for n in names]
@@ -457,7 +457,8 @@ def enabled_ops(w: World, dirs, names, bytes_, mtimes, classes, max_objs) -> lis
             out.append((1.0, op_rec("edel", t=p)))
     for i in range(1, len(w.objs) + 1):
         out.append((0.3, op_rec("update", i=i)))
-        out.append((0.3, op_rec("reload", i=i)))
+        if i <= len(last_obs) and last_obs[i - 1]["h"] != RAISE:   # pickling reads .hash
+            out.append((0.3, op_rec("reload", i=i)))
     for i in fobjs:
         ti = w.meta[i - 1][1]
         cur = fst[tuple(ti)]
@@ -521,8 +522,9 @@ def record_ops_trace(rng, root: Path, n_ops: int, dirs, names, bytes_, mtimes, c
     w = World(root)
     tok = Interner()
     steps = []
+    obs: list = []
     for _ in range(n_ops):
-        cands = enabled_ops(w, dirs, names, bytes_, mtimes, classes, max_objs)
+        cands = enabled_ops(w, dirs, names, bytes_, mtimes, classes, max_objs, obs)
         op = rng.choices([c[1] for c in cands], weights=[c[0] for c in cands])[0]
         exc = w.apply(op)
         obs = w.observe()
